@@ -37,6 +37,11 @@ def gen_cases(tier: str, seed: int) -> List[Dict[str, Any]]:
             layers.append({"tau": tau, "branch": rng.choice(BRANCHES)})
         rank = rng.randint(1, 4)
         shape = [rng.choice([1, 2, 3, 5]) for _ in range(rank - 1)] + [rng.choice([2, 3, 5, 7])]
+        if rng.random() < 0.12:
+            # single-element tensors ("arbitrary tensor shapes"): rank 0, (1,), (1,1) ... - elementwise branches only
+            shape = [1] * rng.randint(0, 3)
+            for l in layers:
+                l["branch"] = rng.choice(["tanh", "sin_scale", "u_gelu"])
         cases.append({"layers": layers, "nested": depth >= 2 and rng.random() < 0.4, "shape": shape,
                       "gradcheck": rng.random() < 0.15, "seed": derive_seed(seed, PROPERTY, "s", i) % (2**31)})
     return cases
@@ -71,7 +76,7 @@ def run_case(case: Dict[str, Any], ctx) -> None:
     ctx.count("evaluations")
     gen = torch.Generator().manual_seed(case["seed"])
     shape = case["shape"]
-    d = shape[-1]
+    d = shape[-1] if shape else 1
     x0 = torch.randn(shape, generator=gen, dtype=torch.float64)
     up = torch.randn(shape, generator=gen, dtype=torch.float64)
     layers = case["layers"]
